@@ -312,6 +312,13 @@ class SR:
         _nonzero(s)
         return SR(o.e / s.e)
 
+    def __floordiv__(s, o):
+        o = lift(o)
+        if o is NotImplemented:
+            return o
+        _nonzero(o)
+        return SR(z3.ToReal(z3.ToInt(s.e / o.e)))      # z3's to_int is the floor
+
     def __neg__(s):
         return SR(-s.e)
 
